@@ -640,6 +640,10 @@ func (e *loopEnv) judge(run *harness.Run, X string) *siteView {
 			case n == 0:
 				e.violation(run, fmt.Sprintf("lost|kind=snapshot-key|%s", ctx),
 					fmt.Sprintf("site %s: snapshot key %q of site %s was not replayed by the completed snapshot phase of link %s→%s", X, k.Key, v.Y, v.Y, X), e.witness(nil))
+			case n > 1 && len(k.Value.Hash) > 10:
+				// a hash above the (lowered) chunk threshold is replayed in pieces, one unit each
+				run.Count("snapshot_keys_replayed_in_pieces", 1)
+				run.Count("snapshot_key_pieces", int64(n))
 			case n > 1:
 				e.violation(run, fmt.Sprintf("duplicated|phase=snapshot|%s", ctx),
 					fmt.Sprintf("site %s: snapshot key %q of site %s was written in %d transactions", X, k.Key, v.Y, n), e.witness(nil))
